@@ -79,3 +79,36 @@ package client
 //@                unprocessed[table][len(unprocessed[table]) - 1] == req
 //@   ensures[C15,C19] err != nil && result == nil ==> forall j int :: 0 <= j && j < old(table in unprocessed ? len(unprocessed[table]) : 0) ==> unprocessed[table][j] == old(unprocessed[table][j])
 //@   ensures[C15,C19] forall t2 string :: {unprocessed[t2]} t2 != table ==> ((t2 in unprocessed) == old(t2 in unprocessed)) && unprocessed[t2] == old(unprocessed[t2])
+
+// ---- C19: a batch is its item-by-item decomposition -------------------------------------------------
+// Every write request of the input is handed, with its own table name, to executeBatchWriteRequest, which performs
+// exactly one unconditional PutItem / DeleteItem with the request's item / key on that table; the outcome of that
+// call is what handleBatchWriteRequestError classifies. (callsite clauses constrain the arguments of the calls the
+// function makes; arg.<p> is the callee's parameter p.)
+//@ func executeBatchWriteRequest
+//@   partial
+//@   callsite[C19] (*Client).PutItem: req.PutRequest != nil && arg.fd == fd && arg.input != nil && arg.input.TableName == table && arg.input.Item == req.PutRequest.Item && arg.input.ConditionExpression == nil && arg.input.ExpressionAttributeNames == nil && arg.input.ExpressionAttributeValues == nil
+//@   callsite[C19] (*Client).DeleteItem: req.PutRequest == nil && req.DeleteRequest != nil && arg.fd == fd && arg.input != nil && arg.input.TableName == table && arg.input.Key == req.DeleteRequest.Key && arg.input.ConditionExpression == nil && arg.input.ExpressionAttributeNames == nil && arg.input.ExpressionAttributeValues == nil
+//@   ensures[C19] req.PutRequest == nil && req.DeleteRequest == nil ==> result == nil && unchangedAll()
+
+//@ func (*Client).BatchWriteItem
+//@   partial
+//@   requires input != nil
+//@   callsite[C19] executeBatchWriteRequest: arg.fd == fd && arg.table != nil && *arg.table == table && arg.req == req && table in input.RequestItems
+//@   callsite[C19] handleBatchWriteRequestError: arg.table == table && arg.req == req && arg.unprocessed == unprocessed && arg.err == err
+//@   ensures[C19] result1 == nil ==> result0 != nil && result0.UnprocessedItems == unprocessed
+//@   loop 1:
+//@     invariant fresh(unprocessed) && unprocessed != nil && dom(input.RequestItems) == old(dom(input.RequestItems))
+//@   loop 2:
+//@     invariant fresh(unprocessed) && unprocessed != nil && dom(input.RequestItems) == old(dom(input.RequestItems)) && table in input.RequestItems && rangeindex >= -1
+
+// BatchGetItem: every key of the input is looked up by one GetItem on its own table with the request's options;
+// (that a key without a stored item is reported as unprocessed is known finding C19-F1)
+//@ func executeGetRequest
+//@   partial
+//@   callsite[C19] (*Client).GetItem: arg.fd == fd && arg.input == getInput
+
+//@ func (*Client).BatchGetItem
+//@   partial
+//@   callsite[C19] executeGetRequest: arg.fd == fd && arg.getInput != nil && arg.getInput.TableName != nil && *arg.getInput.TableName == tableName && arg.getInput.Key == req &&
+//@                arg.getInput.ConsistentRead == reqs.ConsistentRead && arg.getInput.ProjectionExpression == reqs.ProjectionExpression && arg.getInput.ExpressionAttributeNames == reqs.ExpressionAttributeNames
